@@ -54,6 +54,13 @@ type Behaviour struct {
 	Asserts  map[string][]*Clause // keyed program point
 	Panics   []*Clause            // "panics when"
 	Insts    []*Clause            // instantiate Callee.beh(ghost args): parsed as a call expression "Callee.beh(args)"
+	// FinalHeap: prefixes of axiom names. Such axioms (heap-reading, with a heap-free trigger, hence normally instances
+	// for the heap on entry) are instantiated a second time over the heap at each return, under that return's path
+	// condition: the unit builds NEW objects the axiomatised relation is about (teq of a freshly built type). Sound only
+	// where the unit does not change what the axioms read of objects that existed on entry -- the frame clause of the
+	// behaviour must not list those fields (checked: a behaviour with `finalheap` and an assigns clause other than
+	// `nothing`/`caches` is rejected).
+	FinalHeap []string
 }
 
 func newBeh(name string) *Behaviour {
@@ -115,7 +122,7 @@ type SpecFile struct {
 	Axioms    []*Axiom
 }
 
-var kwRe = regexp.MustCompile(`^(assumed|triggered|purepkg|pure|instantiate|opaque|uses|manual|keeps|macro|ghost|func|requires|ensures|assigns|invariant|loop|behaviour|behavior|spec|axiom|lemma|decreases|inline|trusted|overflow|nopanic|partial|props|panics|assert|rec)\b`)
+var kwRe = regexp.MustCompile(`^(finalheap|assumed|triggered|purepkg|pure|instantiate|opaque|uses|manual|keeps|macro|ghost|func|requires|ensures|assigns|invariant|loop|behaviour|behavior|spec|axiom|lemma|decreases|inline|trusted|overflow|nopanic|partial|props|panics|assert|rec)\b`)
 
 var readsRe = regexp.MustCompile(`\s+reads\s*\{([^}]*)\}\s*`)
 
@@ -257,6 +264,11 @@ func ParseSpecFile(path, pkg string) (*SpecFile, error) {
 			beh = newBeh(name)
 			beh.Ghosts = ghosts
 			cur.Behs = append(cur.Behs, beh)
+		case "finalheap":
+			if err := needBeh(); err != nil {
+				return nil, err
+			}
+			beh.FinalHeap = append(beh.FinalHeap, strings.Fields(strings.ReplaceAll(rest, ",", " "))...)
 		case "instantiate":
 			// instantiate Callee.beh(g1, g2): at calls of Callee, its behaviour beh may be used with these ghost arguments
 			if err := needBeh(); err != nil {
